@@ -20,6 +20,24 @@ import (
 // instrumentRepo runs cmd/instrument on the current tree and returns the
 // overlay path and the number of yield sites.
 func (e *Env) instrumentRepo() (string, int, error) {
+	overlay, sites, err := e.instrumentRepoWith(false)
+	if err != nil {
+		return "", 0, err
+	}
+	// The cooperative-lock rewriting assumes that x.Lock()/x.RLock() are
+	// sync.Mutex / sync.RWMutex methods (so that x.TryLock exists).  If the
+	// instrumented tree does not compile, fall back to yield points only:
+	// locks then block in the runtime and the watchdog handles them.
+	probe := concVariant("asm", overlay)
+	probe.Name = "asm-probe"
+	if _, berr := e.Build(probe); berr != nil {
+		Logf("the tree does not compile with cooperative locks (%v); instrumenting without them", strings.SplitN(berr.Error(), "\n", 2)[0])
+		return e.instrumentRepoWith(true)
+	}
+	return overlay, sites, nil
+}
+
+func (e *Env) instrumentRepoWith(noLocks bool) (string, int, error) {
 	bin := filepath.Join(e.WorkDir, "bin", "instrument")
 	cmd := exec.Command("go", "build", "-o", bin, "./cmd/instrument")
 	cmd.Dir = e.VerifDir
@@ -28,7 +46,12 @@ func (e *Env) instrumentRepo() (string, int, error) {
 		return "", 0, harnessErr("build instrument: %v\n%s", err, out)
 	}
 	dir := filepath.Join(e.WorkDir, "ov")
-	cmd = exec.Command(bin, "-repo", e.RepoDir, "-out", dir)
+	args := []string{"-repo", e.RepoDir, "-out", dir}
+	if noLocks {
+		dir = filepath.Join(e.WorkDir, "ov-nolocks")
+		args = []string{"-repo", e.RepoDir, "-out", dir, "-nolocks"}
+	}
+	cmd = exec.Command(bin, args...)
 	out, err := cmd.CombinedOutput()
 	if err != nil {
 		return "", 0, harnessErr("instrument %s: %v\n%s", e.RepoDir, err, out)
